@@ -129,6 +129,8 @@ pub struct Acc {
     pub capped_sets: bool,
 }
 
+pub static MACHINERY_FAILED: AtomicBool = AtomicBool::new(false);
+
 pub const SET_CAP: usize = 4_000_000;
 pub const MAX_VIOL_PER_WORKER: usize = 8;
 
@@ -288,7 +290,6 @@ impl Ctx {
         let done = AtomicU64::new(0);
         let block = (total / (workers() as u64 * 64)).clamp(1, 1 << 14);
         let capped = AtomicBool::new(false);
-        let _ = layer_no;
         std::thread::scope(|s| {
             for _ in 0..workers() {
                 s.spawn(|| {
@@ -306,7 +307,18 @@ impl Ctx {
                         }
                         let b = (a + block).min(total);
                         for i in a..b {
-                            f(i, &mut acc);
+                            // a panic that escapes the property's own guards: a panic raised inside quick-xml is a
+                            // finding for the case at hand (reported as a violation), anything else is a failure of
+                            // the machinery (exit 2, never a verdict)
+                            if let Err(msg) = guarded_mut(|| f(i, &mut acc)) {
+                                let loc = msg.rsplit(" @ ").next().unwrap_or("");
+                                if loc.contains("/repo/src/") || loc.contains("quick-xml") || loc.contains("quick_xml") {
+                                    acc.violation((layer_no, i), format!("layer {} case #{}: quick-xml panicked outside every guarded call: {}", name, i, msg), json!({"layer": name, "index": i, "unguarded_panic": msg}));
+                                } else {
+                                    eprintln!("MACHINERY: panic in the checker itself (layer {} case #{}): {}", name, i, msg);
+                                    MACHINERY_FAILED.store(true, Ordering::Relaxed);
+                                }
+                            }
                         }
                         done.fetch_add(b - a, Ordering::Relaxed);
                     }
@@ -424,7 +436,9 @@ impl Ctx {
             exhaustive,
             self.start.elapsed().as_secs_f64()
         );
-        if nviol > 0 {
+        if MACHINERY_FAILED.load(Ordering::Relaxed) {
+            2
+        } else if nviol > 0 {
             1
         } else {
             0
